@@ -5,11 +5,13 @@ code -> spec: pick sequences of the real ABTest validated by specs/TraceStrategy
 spec -> code: every behaviour of Latest.tla up to Depth replayed on the real Latest/Explicit over a posix registry
 """
 import concurrent.futures
+import copy
 import fractions
 import itertools
 import json
 import multiprocessing
 import os
+import pickle
 import random
 import shutil
 import tempfile
@@ -89,7 +91,9 @@ def abtest_vectors(chk, rnd):
              ['7', '5', '3', '2', '1', '1'], ['0.05', '0.15', '0.2', '0.25', '0.3', None], ['10', '1'], ['100', '1', '1'],
              # explicit fractions that do not add up to one are normalised like any other targets
              ['0.5', '0.25'], ['0.33', '0.33', '0.33'], ['0.3', '0.2', '0.1', '0.1'], ['0.2', '0.1'], ['0.01', '0.02'],
-             ['0.45', '0.45'], ['0.9', '0.3'], ['0.7', '0.7', '0.7']]
+             ['0.45', '0.45'], ['0.9', '0.3'], ['0.7', '0.7', '0.7'],
+             # omitted targets next to given ones that add up to exactly one (the integer / fraction boundary)
+             ['1', None], [None, '1'], ['1', None, None], ['0.5', '0.5', None], ['0.25', '0.75', None, None]]
     for _ in range(20 if chk.quick else 200):   # random explicit fractions, any sum
         k = rnd.randint(2, 4)
         extra.append([f'0.{rnd.randint(1, 99):02d}' for _ in range(k)])
@@ -215,6 +219,8 @@ def _latest_job(job):
         elif ev['op'] == 'commit':
             gens = [int(p) for p in os.listdir(os.path.join(root, 'prj', str(ev['r']))) if p.isdigit()]
             regfix.commit(root, 'prj', ev['r'], max(gens, default=0) + 1)
+        elif ev['op'] == 'copy':
+            latest = pickle.loads(pickle.dumps(latest)) if step % 2 else copy.deepcopy(latest)
         elif ev['op'] == 'tick':
             if not vt.tick(latest._refresher):
                 fail = ('Latest: refresher thread did not complete a pass (died or never started)',
@@ -262,7 +268,7 @@ def latest_replays(chk):
             fh.write(f'SPECIFICATION Spec\nCONSTANTS NR = {nr}\n MaxGen = 2\n Configured = {configured}\n Depth = {depth}\n'
                      'CONSTRAINT Bound\nINVARIANT ImplRefines\nINVARIANT FreshAfterTick\nINVARIANT NewestWellFormed\n'
                      'INVARIANT Export\nCHECK_DEADLOCK FALSE\n')
-        res = chk.tlc('Latest', cfg, workers=1, require=['Publish', 'Commit', 'Select', 'Tick'])
+        res = chk.tlc('Latest', cfg, workers=1, require=['Publish', 'Commit', 'Select', 'Tick', 'Copy'])
         behaviours = res.json_prints()
         if not behaviours:
             raise tlc.MachineryError('Latest.tla exported no behaviour')
